@@ -41,7 +41,15 @@ def render_module(root: Path, tasks: list[dict], version: int) -> str:
         if kw or t.get("use_decorator"):
             decos.append("@task(" + ", ".join(kw) + ")")
         args = [f"d{j}: Path = ROOT / 'f{d}.txt'" for j, d in enumerate(t["deps"])]
-        args += [f"p{j}: Annotated[Path, Product] = ROOT / 'f{p}.txt'" for j, p in enumerate(t["prods"])]
+        sp = t.get("spell", {})
+        def _pp(p):
+            v = sp.get(str(p))
+            if v == "dot":
+                return f"ROOT / '.' / 'f{p}.txt'"
+            if v == "updown":
+                return f"ROOT / 'sub' / '..' / 'f{p}.txt'"
+            return f"ROOT / 'f{p}.txt'"
+        args += [f"p{j}: Annotated[Path, Product] = {_pp(p)}" for j, p in enumerate(t["prods"])]
         lines += decos
         lines.append(f"def task_t{t['id']}_({', '.join(args)}):")
         dl = "[" + ", ".join(f"d{j}" for j in range(len(t["deps"]))) + "]"
@@ -78,7 +86,7 @@ def _child(root: str, cfg: dict, wfd: int, crash: dict | None):
         import _pytask.build as B
         from _pytask.pluginmanager import hookimpl
         snap = Snap()
-        Snap.pytask_collect_modify_tasks = hookimpl(Snap.pytask_collect_modify_tasks)
+        Snap.pytask_collect_modify_tasks = hookimpl(trylast=True)(Snap.pytask_collect_modify_tasks)
         orig = B.get_plugin_manager
 
         def gpm():
